@@ -696,6 +696,15 @@ impl BytecodeInterpreter {
             })
     }
 
+    /// The raw (unsimplified) value bound to a global name: its slot on the VM stack.
+    #[cfg(feature = "verif")]
+    pub(crate) fn verif_global_value(&self, name: &str) -> Option<&crate::value::Value> {
+        let position = self.locals[0]
+            .iter()
+            .rposition(|l| l.identifiers.iter().any(|n| n == name))?;
+        self.vm.verif_stack_slot(position)
+    }
+
     pub fn lookup_global(&self, name: &str) -> Option<&Local> {
         self.locals[0]
             .iter()
